@@ -483,7 +483,16 @@ func checkC03(R *Run) {
 				if relock {
 					why += "; it can be taken again while still held"
 				}
-				if ok2 && !relock && guardedReach[rootFn(fn)] {
+				// every release is a call that was deferred in a helper the normalised view expanded: it ran on a panic too
+				viaLowered, _ := mustPassAfter(ins, func(x ssa.Instruction) bool {
+					cx, isCall := x.(ssa.CallInstruction)
+					if !isCall || !P.loweredDefer(x) {
+						return false
+					}
+					id3, op3, ok3 := P.lockOp(fn, cx.Common())
+					return ok3 && op3 == "unlock" && id3 == id
+				})
+				if ok2 && !relock && !viaLowered && guardedReach[rootFn(fn)] {
 					if pi := mayPanicInSection(P, fn, ins, id); pi != nil {
 						ok2 = false
 						why = "the section between this Lock and its explicit Unlock contains an operation that can panic at " + P.ipos(pi) + " (" + describePanicSite(pi) + "); the connection's recover swallows the panic but the mutex stays locked, so every later caller blocks forever — use defer Unlock or make the section panic-free"
